@@ -52,9 +52,10 @@ pub const ALL_PROPS: &[&str] = &[
 pub fn budget(prop: &str, tier: Tier) -> u64 {
     let q = match prop {
         "C01" => 40000,
-        "C04" | "C11" | "C12" | "C16" => 30000,
+        "C04" => 20000,
+        "C11" | "C12" | "C16" => 30000,
         "C05" => 24000,
-        "C07" | "C08" => 40000,
+        "C07" | "C08" => 25000,
         "C18" => 20000,
         "C02" => 700,
         "C09" => 1600,
@@ -91,8 +92,10 @@ pub fn gen_case(prop: &str, tier: Tier, seed: u64) -> Case {
         "C16" => seqprops::gen_c16(tier, seed),
         "C18" => seqprops::gen_c18(tier, seed),
         "C02" => crashprops::gen_c02(tier, seed),
+        "C09" if seed % 4 == 0 => thrprops::gen_c09t(tier, seed),
         "C09" => crashprops::gen_c09(tier, seed),
         "C10" => crashprops::gen_c10(tier, seed),
+        "C13" if seed % 3 == 0 => thrprops::gen_c13t(tier, seed),
         "C13" => crashprops::gen_c13(tier, seed),
         "C03" => ioprops::gen_c03(tier, seed),
         "C15" => ioprops::gen_c15(tier, seed),
